@@ -387,9 +387,23 @@ def correspondence(ctx, model_ok=True):
     out["exact_agreements"] = sum(1 for c in codes if c == 0)
     out["tolerance_agreements"] = sum(1 for c in codes if c == 1)
     out["traces_validated_against_impl"] = sum(1 for c in codes if c <= 1)
+    skipped = 0
     for c, g, code in zip(cases, gots, codes):
         if code >= 2:
+            # outside the property's domain (sum(w r^m) vanishes, exactly or up to rounding): the quotient is 0/0-like, the exact
+            # model and the float code need not agree there - not compared, counted
+            try:
+                n, m = harmonic(c), c["m"]
+                pts = points_of(c)
+                if n >= 1 and (m is None or m >= 1) and pts and not any(math.isnan(w) for _, _, w in pts):
+                    _, den, ab = defining(pts, n, m)
+                    if ab == 0 or abs(den) < 1e-6 * ab:
+                        skipped += 1
+                        continue
+            except Exception:
+                pass
             out["failures"].append(Failure(c, f"model and implementation disagree (code {code}): impl={g}"))
+    out["distribution"]["vanishing_denominator_not_compared"] = skipped
     return out
 
 
